@@ -10,6 +10,7 @@ import TB.Props.C12
 import TB.Props.C04a
 import TB.Props.C01bytes
 import TB.Lemmas.RunK
+import TB.Lemmas.RunKCex
 namespace TB
 
 /-- collision-freedom of the hash on the buffers of the run's pieces: two byte strings with the hash of one and
@@ -27,24 +28,59 @@ def RangesDisjoint (work : List Work) : Prop :=
     s.ent.isPad = false → t.ent.isPad = false → s.ent.fullTarget ≠ t.ent.fullTarget)
 
 /-- clause a: a work item of the run that verifies in the initial tree verifies in the final tree — and in the
-    tree at every interruption point (every prefix of the log) -/
+    tree at every interruption point (every prefix of the log).
+
+    STATEMENT CHANGE: the hypothesis `hsame` (non-padding table entries with the same export image declare the same
+    length; the same hypothesis as in `C01_bytes`) was added because the first formulation is false without it, even
+    for the final tree; the world is the checked example `TB.Lemmas.RunKCex` (`H = id`), see
+    `C04_run_preserved_needs_hsame` below. One torrent lists the path `x` twice (finding D6): with length 2 and with
+    length 0, followed by a file `y` of length 1; piece length 2. Piece 0 is `x[0,2)` and verifies in the initial
+    tree. Piece 1 consists of a zero-length segment of the second `x` and of `y[0,1)`; it is found among the
+    candidates, and writing its zero-length segment performs `set_len 0` on the image of `x`. Piece 0 does not
+    verify any more (nor is it found again). `FsWF`, `NoAlias`, `SegsInRange`, `RangesDisjoint` (a zero-length range
+    overlaps nothing) and `HInjOn` hold in that world. With `hsame`, a `set_len` on the image of a segment uses
+    that segment's declared file length, which contains the segment (`SegsInRange`).
+
+    Proof: along the replay, names keep their inodes, directories stay directories (so no proper prefix of an
+    existing image can be created as a regular file) and export images share no inode (`RunK.SInv`); the byte
+    window of every segment of `w` keeps its initial content (`RunK.Win`): a `set_len` does not cut into it, a write of
+    another piece is disjoint from it (`RangesDisjoint`, first clause), and a write of `w` itself is the write of this
+    very segment (second clause) cut from a buffer that, by `HInjOn`, is the concatenation of the parts read from
+    the initial tree — it stores the bytes that are already there. -/
 theorem C04_run_preserved (H : Bytes → Bytes) (inp : RunIn) (hwf : FsWF inp.fs)
     (hna : NoAlias inp.fs (run H inp).table)
     (hrange : ∀ w ∈ (run H inp).work, SegsInRange w)
+    (hsame : ∀ e ∈ (run H inp).table, ∀ f ∈ (run H inp).table, e.isPad = false → f.isPad = false →
+      e.fullTarget = f.fullTarget → e.fileLength = f.fileLength)
     (hdisj : RangesDisjoint (run H inp).work)
     (hinj : HInjOn H (run H inp).work)
     (w : Work) (hw : w ∈ (run H inp).work) (hver : VerE H inp.fs w) (n : Nat) :
-    VerE H (replay inp.fs ((run H inp).ops.take n)) w := by
-  sorry
+    VerE H (replay inp.fs ((run H inp).ops.take n)) w :=
+  RunK.run_preserved H inp hwf hna hrange hsame hdisj hinj w hw hver _ (fun _ h => List.mem_of_mem_take h)
+
+/-- the first formulation (without `hsame`) is refuted by the world of `TB.Lemmas.RunKCex` -/
+theorem C04_run_preserved_needs_hsame :
+    ¬ (∀ (H : Bytes → Bytes) (inp : RunIn), FsWF inp.fs → NoAlias inp.fs (run H inp).table →
+        (∀ w ∈ (run H inp).work, SegsInRange w) → RangesDisjoint (run H inp).work → HInjOn H (run H inp).work →
+        ∀ w ∈ (run H inp).work, VerE H inp.fs w →
+          ∀ n, VerE H (replay inp.fs ((run H inp).ops.take n)) w) := by
+  intro h
+  have := h id RunK.Cex.inp RunK.Cex.wf RunK.Cex.noAlias RunK.Cex.segsInRange RunK.Cex.disj RunK.Cex.hinj
+    RunK.Cex.w0 RunK.Cex.w0_mem RunK.Cex.w0_ver (run id RunK.Cex.inp).ops.length
+  rw [List.take_length, ← C11_replay] at this
+  exact RunK.Cex.w0_not_ver this
 
 /-- pieces of torrents that are not loaded in this run (their images are not images of the run's table, and share
-    no inode with them) are left exactly as they were -/
+    no inode with them) are left exactly as they were.
+    (Only the first conjunct of `hforeign` is used: a proper prefix of an existing image is a directory of the
+    well-formed initial tree, stays one, and so is never created as a regular file.) -/
 theorem C04_run_foreign_preserved (H : Bytes → Bytes) (inp : RunIn) (hwf : FsWF inp.fs)
     (hna : NoAlias inp.fs (run H inp).table) (w : Work)
     (hforeign : ∀ s ∈ w.segs, s.ent.isPad = false → ∀ e ∈ (run H inp).table, e.isPad = false →
       e.fullTarget ≠ s.ent.fullTarget ∧ ¬ Path.isPrefixOf s.ent.fullTarget e.fullTarget)
     (hver : VerE H inp.fs w) (n : Nat) :
-    VerE H (replay inp.fs ((run H inp).ops.take n)) w := by
-  sorry
+    VerE H (replay inp.fs ((run H inp).ops.take n)) w :=
+  RunK.foreign_preserved H inp hwf hna w (fun s hs hp e he hpe => (hforeign s hs hp e he hpe).1) hver _
+    (fun _ h => List.mem_of_mem_take h)
 
 end TB
